@@ -451,3 +451,22 @@ def E_arcs(c):
 
 def nontrivial(c, o):
     return "err" not in o and o.get("n_entities", 0) >= 2
+
+
+# ------------------------------------------------------------------ (G) the arc centre traced from the source
+
+def translate(ctx):
+    from translate import trace_arc
+    nx, ny, d = trace_arc.trace()
+    args = " ".join(trace_arc.ARGS)
+    L = ["-- GENERATED by harness/props/C14.py: symbolic trace of /repo/trimesh/path/arc.py::arc_center (2D) -- do not edit",
+         "import Mathlib.Algebra.Field.Basic", "namespace TV.Generated.C14", "variable {K : Type} [Field K]", "",
+         "/-- numerator of the x coordinate of the centre -/", f"def centerNumX ({args} : K) : K :=\n  {nx.lean()}\n",
+         "/-- numerator of the y coordinate of the centre -/", f"def centerNumY ({args} : K) : K :=\n  {ny.lean()}\n",
+         "/-- common denominator -/", f"def centerDen ({args} : K) : K :=\n  {d.lean()}\n",
+         "end TV.Generated.C14"]
+    return {"C14Arc.lean": "\n".join(L) + "\n"}
+
+
+def generated_obligations():
+    return 1
